@@ -539,7 +539,9 @@ class IRGenerator:
                 raise InvalidSpec(
                     'Parameter {} must have a type.'.format(quote(param.name)),
                     param.lineno, param.path)
-            param_type = self._resolve_type(env, param.type_ref, True)
+            # Only primitive types are allowed: there is no need to populate a
+            # user-defined type here (its annotations are not resolved yet).
+            param_type = self._resolve_type(env, param.type_ref)
             dt, nullable_dt = unwrap_nullable(param_type)
 
             if isinstance(dt, Void):
